@@ -25,7 +25,7 @@ FILES = {
     # C12 = the chain of preservation/no-panic theorems of the individual passes
     "C12": [("C12Final", []), ("C12", ["Scc.Pipeline"]), ("C12Codegen", []), ("C12Fun2Core", []), ("C12Fun2CoreStrict", []), ("C12Mid", []), ("C15", ["Scc.Fun.Check"]), ("C02", ["Scc.Fun2Core.Model"]), ("C03", ["Scc.Core.Focus"]), ("C04", ["Scc.Core2AxCut.Model"]), ("C05", ["Scc.AxCut.Linearize"])],
     # C01 = composition theorem over the whole pipeline model + its links
-    "C01": [("C01End", []), ("C01Final", []), ("C01", ["Scc.Pipeline"]), ("C01Checks", []), ("C01Loader", []), ("C06Capacity", []), ("C06X86Heap", []), ("C12", []), ("C20Full", []), ("C02Sem", []), ("C02SemSafe", []), ("C02SemFull", []), ("C06X86Full", []), ("C03", []), ("C04Sem", []), ("C06Generic", [])],
+    "C01": [("NonVacuity", []), ("C01End", []), ("C01Final", []), ("C01", ["Scc.Pipeline"]), ("C01Checks", []), ("C01Loader", []), ("C06Capacity", []), ("C06X86Heap", []), ("C12", []), ("C20Full", []), ("C02Sem", []), ("C02SemSafe", []), ("C02SemFull", []), ("C06X86Full", []), ("C03", []), ("C04Sem", []), ("C06Generic", [])],
 }
 
 def theorems(path):
